@@ -58,95 +58,6 @@ func Load(cfg LoadConfig) (*Program, error) {
 
 // ---------------------------------------------------------------------------
 
-func (in *Interp) modelValues() []NondetValue {
-	var terms []*Term
-	for _, nv := range in.nondet {
-		for _, t := range nv.Terms {
-			if !t.IsConst() {
-				terms = append(terms, t)
-			}
-		}
-	}
-	vals, err := in.sol.GetValues(terms)
-	if err != nil {
-		in.incomplete("get-value failed: " + err.Error())
-		return nil
-	}
-	k := 0
-	get := func(t *Term) uint64 {
-		if t.IsConst() {
-			return t.Val
-		}
-		v := vals[k]
-		k++
-		return v
-	}
-	out := make([]NondetValue, 0, len(in.nondet))
-	for _, nv := range in.nondet {
-		switch nv.Kind {
-		case "byte", "u64":
-			out = append(out, NondetValue{nv.Label, nv.Kind, get(nv.Terms[0])})
-		case "int", "choice":
-			out = append(out, NondetValue{nv.Label, nv.Kind, int64(get(nv.Terms[0]))})
-		case "bool":
-			out = append(out, NondetValue{nv.Label, nv.Kind, get(nv.Terms[0]) == 1})
-		case "str", "bytes":
-			b := make([]int, len(nv.Terms))
-			for i, t := range nv.Terms {
-				b[i] = int(get(t))
-			}
-			out = append(out, NondetValue{nv.Label, nv.Kind, b})
-		}
-	}
-	return out
-}
-
-// doAssert checks PC ∧ ¬c.
-func (in *Interp) doAssert(id string, c *Term, msg string) {
-	if c.IsTrue() {
-		in.res.Folded++
-		return
-	}
-	nc := in.ts.Not(c)
-	violated := false
-	if in.modelValid && !in.evalBool(c) {
-		// the cached model of PC already falsifies c
-		violated = true
-		in.sol.Push()
-		in.sol.Assert(nc)
-		if in.sol.Check() != Sat {
-			violated = false
-			in.incomplete("model/solver disagreement at assert " + id)
-		}
-	} else {
-		in.sol.Push()
-		in.sol.Assert(nc)
-		switch in.sol.Check() {
-		case Unsat:
-			in.res.Asserts++
-		case Sat:
-			violated = true
-		default:
-			in.incomplete("solver unknown at assert " + id)
-		}
-	}
-	if violated {
-		v := Violation{Unit: in.unit, AssertID: id, Msg: msg, Nondet: in.modelValues(), Decs: append([]Decision(nil), in.taken...)}
-		if in.env != nil {
-			v.Extra = in.env.snapshotExtra()
-		}
-		in.res.Violations = append(in.res.Violations, v)
-	}
-	in.sol.Pop()
-	if violated {
-		// continue on the satisfying side only
-		if c.IsFalse() || !in.feasible(c) {
-			panic(pathEnd{"assume", "after violation"})
-		}
-		in.assume(c)
-	}
-}
-
 // ---------------------------------------------------------------------------
 // Unit runner
 
@@ -343,6 +254,20 @@ func RunUnit(p *Program, unit string, fn *ssa.Function, opt RunOptions) *UnitRes
 				}
 			}
 		}
+	}
+	if opt.Debug || os.Getenv("GOSYM_PROGRESS") != "" {
+		go func() {
+			for {
+				time.Sleep(10 * time.Second)
+				mu.Lock()
+				if stop || (len(stack) == 0 && active == 0) {
+					mu.Unlock()
+					return
+				}
+				fmt.Fprintf(os.Stderr, "progress %s: paths=%d queue=%d active=%d ends=%v\n", unit, ur.Paths, len(stack), active, ur.Ends)
+				mu.Unlock()
+			}
+		}()
 	}
 	var wg sync.WaitGroup
 	for i := 0; i < opt.Workers; i++ {
